@@ -13,6 +13,16 @@ EDGE_QUERIES = ['true', 'false', 'a', 'a == 1', 'a.* == 1', 'a..b', 'a[0]', 'a["
                 'datetime("10/19/2021, 6:29:02.000 PM") < a', 'a.json()..b', '-a < 0', 'a.undefinedHelper(1)']
 
 
+# primaries the KFL grammar may accept although they are no JSONPath for the path library (or no path at all): the
+# ones the grammar rejects only add error outcomes
+ODD_PRIMARIES = ['a.', 'c.d.', 'a.(1)', 'a.*b', 'a[`x"y`]', 'a["x\\"]', 'a..', 'a.*.', 'a[*].', 'a.b.(1, 2)', 'zz.startsWith.("x")', 'a.[0]',
+                 'a.b..', 'a.json().', 'a.xml().', 'a.json().(1)', 'a[`k`].', 'a["k"].', 'a[-1].', 'a.*[0].', 'a.b.*c', 'a.1b', 'a.$', 'a.@',
+                 'a["k"]b', "a['k']", 'a.b["x`y"]', 'a..[0]', 'a...b', 'a.limit.', 'redactx.']
+ODD_TEMPLATES = ['%s', '%s and b', 'b and %s', '%s or b', '!%s and b', '(%s) and b', '(b == %s) and b', '5 == %s and b', '%s == 1 and b',
+                 '%s < 2 and b', 'b and (%s or c) and a', '%s and %s', '(%s and b) or (a and b)', 'a and (b and (c or %s))']
+ODD_RECORDS = ['{"a":1,"b":2}', '{"a":{"b":[1,2],"k":"x"},"b":true,"c":[1]}', '{"a":"{\\"b\\":1}","b":"x","c":null}']
+
+
 def run(ctx):
     ctx.build_harness()
     if not ctx.harness_tagged:
@@ -40,6 +50,11 @@ def run(ctx):
     for r in kfl.edge_records():
         for q in EDGE_QUERIES:
             cases.append(("edge-record", q, r))
+    for x in ODD_PRIMARIES:
+        for t in ODD_TEMPLATES:
+            q = t.replace("%s", x)
+            for r in (rng.sample(ODD_RECORDS, 2) if quick else ODD_RECORDS):
+                cases.append(("odd-path", q, r))
     hops = [q for q in C13.HOP_QUERIES if "redact" not in q]
     for r in kfl.nested_doc_records(rng, 100 if quick else 1000):
         for q in rng.sample(hops, 5):
